@@ -230,6 +230,23 @@ fn derive_not_shape(def: &NotDef, symbol_table: &mut BTreeMap<Rc<str>, Shape>) -
     )
 }
 
+/// True if a value of this shape can be the base of a copy expression.
+fn may_be_copyable(shape: &Shape) -> bool {
+    match shape {
+        Shape::Tuple(_) | Shape::Module(_) | Shape::Import(_) | Shape::Hole(_) => true,
+        Shape::Narrowed(NarrowedShape {
+            pos: _,
+            types: NarrowingShape::Any,
+        }) => true,
+        // The candidates can be candidate sets themselves.
+        Shape::Narrowed(NarrowedShape {
+            pos: _,
+            types: NarrowingShape::Narrowed(shape_list),
+        }) => shape_list.is_empty() || shape_list.iter().any(may_be_copyable),
+        _ => false,
+    }
+}
+
 fn derive_copy_shape(def: &CopyDef, symbol_table: &mut BTreeMap<Rc<str>, Shape>) -> Shape {
     let base_shape = def.selector.derive_shape(symbol_table);
     match &base_shape {
@@ -286,12 +303,8 @@ fn derive_copy_shape(def: &CopyDef, symbol_table: &mut BTreeMap<Rc<str>, Shape>)
             // 1. Do the possible shapes include tuple, module, or import?
             let filtered = potentials
                 .iter()
-                .filter_map(|v| match v {
-                    Shape::Tuple(_) | Shape::Module(_) | Shape::Import(_) | Shape::Hole(_) => {
-                        Some(v.clone())
-                    }
-                    _ => None,
-                })
+                .filter(|v| may_be_copyable(v))
+                .cloned()
                 .collect::<Vec<Shape>>();
             if !filtered.is_empty() {
                 //  1.1 Then return those and strip the others.
